@@ -233,12 +233,13 @@ func (e *Engine) rangeFact(t *Term, typ types.Type) {
 	}
 }
 
-var maxCap = new(big.Int).Lsh(big.NewInt(1), 47)
+var maxCap = new(big.Int).Lsh(big.NewInt(1), 47)  // largest allocation make accepts (bytes)
+var maxElems = new(big.Int).Lsh(big.NewInt(1), 40) // no existing slice has more elements than this
 
 func (e *Engine) sliceFacts(v SliceV) {
 	c := e.C
 	z := c.IntC(0)
-	f := c.And(c.Le(z, v.Arr), c.Le(z, v.Off), c.Le(z, v.Len), c.Le(v.Len, v.Cap), c.Le(c.Add(v.Off, v.Cap), c.IntB(maxCap)),
+	f := c.And(c.Le(z, v.Arr), c.Le(z, v.Off), c.Le(z, v.Len), c.Le(v.Len, v.Cap), c.Le(c.Add(v.Off, v.Cap), c.IntB(maxElems)),
 		c.Implies(c.Eq(v.Arr, z), c.And(c.Eq(v.Cap, z), c.Eq(v.Off, z))))
 	if f.IsTrue() {
 		return
@@ -302,7 +303,7 @@ func (e *Engine) load(s *State, p PtrV) Value {
 		return e.fromLeaves(p.T, ts, s)
 	case PElem:
 		if structOf(p.T) != nil {
-			return e.load(s, PtrV{Kind: PObj, Ref: e.elemRef(p.Arr, p.Idx), T: p.T})
+			return e.load(s, e.elemObj(p.Arr, p.Idx, p.T))
 		}
 		ls := e.leavesOf(p.T)
 		if ls == nil {
@@ -310,10 +311,17 @@ func (e *Engine) load(s *State, p PtrV) Value {
 		}
 		ts := make([]*Term, len(ls))
 		for i, l := range ls {
-			h := e.heapGet(s, elemKey(p.T)+l.comp, Array(Int, Array(Int, l.sort)))
+			h := e.heapGet(s, p.elemKeyOf()+l.comp, Array(Int, Array(Int, l.sort)))
 			ts[i] = c.Select(c.Select(h, p.Arr), p.Idx)
 		}
 		return e.fromLeaves(p.T, ts, s)
+	case PElemObj:
+		st := structOf(p.T)
+		out := StructV{F: make([]Value, st.NumFields())}
+		for i := 0; i < st.NumFields(); i++ {
+			out.F[i] = e.load(s, e.fieldAddr(p, i))
+		}
+		return out
 	case PArr:
 		at := p.T.Underlying().(*types.Array)
 		es := e.leavesOf(at.Elem())
@@ -364,6 +372,7 @@ func (e *Engine) store(s *State, p PtrV, v Value) error {
 			ls := e.leavesOf(p.T)
 			key := p.Key + ls[0].comp
 			h := e.heapGet(s, key, Array(Int, ls[0].sort))
+			e.noteWrite(s, key, wtarget{kind: wRef, ref: p.Ref})
 			e.heapSet(s, key, c.Store(h, p.Ref, c.Store(c.Select(h, p.Ref), p.Idx, ts[0])))
 			return nil
 		}
@@ -374,6 +383,7 @@ func (e *Engine) store(s *State, p PtrV, v Value) error {
 		for i, l := range e.leavesOf(p.T) {
 			key := p.Key + l.comp
 			h := e.heapGet(s, key, Array(Int, l.sort))
+			e.noteWrite(s, key, wtarget{kind: wRef, ref: p.Ref})
 			e.heapSet(s, key, c.Store(h, p.Ref, ts[i]))
 		}
 		return nil
@@ -388,20 +398,34 @@ func (e *Engine) store(s *State, p PtrV, v Value) error {
 		for i, l := range e.leavesOf(p.T) {
 			key := boxKey(p.T) + l.comp
 			h := e.heapGet(s, key, Array(Int, l.sort))
+			e.noteWrite(s, key, wtarget{kind: wRef, ref: p.Ref})
 			e.heapSet(s, key, c.Store(h, p.Ref, ts[i]))
+		}
+		return nil
+	case PElemObj:
+		st := structOf(p.T)
+		sv, ok := v.(StructV)
+		if !ok || st == nil {
+			return fmt.Errorf("store struct element: got %T for %s", v, p.T)
+		}
+		for i := 0; i < st.NumFields(); i++ {
+			if err := e.store(s, e.fieldAddr(p, i), sv.F[i]); err != nil {
+				return err
+			}
 		}
 		return nil
 	case PElem:
 		if structOf(p.T) != nil {
-			return e.store(s, PtrV{Kind: PObj, Ref: e.elemRef(p.Arr, p.Idx), T: p.T}, v)
+			return e.store(s, e.elemObj(p.Arr, p.Idx, p.T), v)
 		}
 		ts, err := e.toLeaves(p.T, v)
 		if err != nil {
 			return err
 		}
 		for i, l := range e.leavesOf(p.T) {
-			key := elemKey(p.T) + l.comp
+			key := p.elemKeyOf() + l.comp
 			h := e.heapGet(s, key, Array(Int, Array(Int, l.sort)))
+			e.noteWrite(s, key, wtarget{kind: wRow, arr: p.Arr, lo: p.Idx, n: c.IntC(1)})
 			e.heapSet(s, key, c.Store(h, p.Arr, c.Store(c.Select(h, p.Arr), p.Idx, ts[i])))
 		}
 		return nil
@@ -414,6 +438,7 @@ func (e *Engine) store(s *State, p PtrV, v Value) error {
 		}
 		key := elemKey(at.Elem()) + es[0].comp
 		h := e.heapGet(s, key, Array(Int, Array(Int, es[0].sort)))
+		e.noteWrite(s, key, wtarget{kind: wRow, arr: p.Arr, lo: c.IntC(0), n: c.IntC(at.Len())})
 		e.heapSet(s, key, c.Store(h, p.Arr, av.A))
 		return nil
 	case PCell:
@@ -431,22 +456,19 @@ func (e *Engine) store(s *State, p PtrV, v Value) error {
 	return fmt.Errorf("store through pointer kind %d", p.Kind)
 }
 
-func (e *Engine) elemRef(arr, idx *Term) *Term {
-	e.ensureElemAxioms()
-	return e.C.App("elem", Int, arr, idx)
+// elemObj is the address of the struct that is element idx of backing array arr.
+// Struct elements live in two-level heaps "E:<type>.<field path>"[arr][idx],
+// exactly like scalar elements, so that copying and growing slices of structs
+// are row operations.
+func (e *Engine) elemObj(arr, idx *Term, t types.Type) PtrV {
+	return PtrV{Kind: PElemObj, Arr: arr, Idx: idx, T: t, Key: "E:" + typeKey(t)}
 }
 
-func (e *Engine) ensureElemAxioms() {
-	if e.elemAx {
-		return
+func (p PtrV) elemKeyOf() string {
+	if p.Key != "" {
+		return p.Key
 	}
-	e.elemAx = true
-	c := e.C
-	a := c.BoundVar("a", Int)
-	i := c.BoundVar("i", Int)
-	el := c.App("elem", Int, a, i)
-	body := c.And(c.Eq(c.App("elemArr", Int, el), a), c.Eq(c.App("elemIdx", Int, el), i), c.Lt(a, el), c.Eq(e.rootOf(el), e.rootOf(a)))
-	c.AddAxiom("elem-inj", []string{"elem"}, c.Quant("forall", []*Term{a, i}, body, [][]*Term{{el}}))
+	return elemKey(p.T)
 }
 
 func (e *Engine) subRef(t types.Type, i int, ref *Term) *Term {
@@ -478,7 +500,13 @@ func (e *Engine) fieldAddr(p PtrV, i int) PtrV {
 		np.T = ft
 		return np
 	case PElem:
-		return e.fieldAddr(PtrV{Kind: PObj, Ref: e.elemRef(p.Arr, p.Idx), T: p.T}, i)
+		return e.fieldAddr(e.elemObj(p.Arr, p.Idx, p.T), i)
+	case PElemObj:
+		key := p.Key + "." + st.Field(i).Name()
+		if structOf(ft) != nil {
+			return PtrV{Kind: PElemObj, Arr: p.Arr, Idx: p.Idx, T: ft, Key: key}
+		}
+		return PtrV{Kind: PElem, Arr: p.Arr, Idx: p.Idx, T: ft, Key: key}
 	}
 	return PtrV{Kind: PCell, T: ft, Cell: &Cell{Name: "bad", T: ft}}
 }
@@ -709,7 +737,24 @@ func (e *Engine) newRef(s *State, name string) *Term {
 	r := c.Fresh(name, Int)
 	r.AddFact(c.And(c.Le(s.next, r), c.Lt(c.IntC(0), r), c.Eq(e.rootOf(r), r)))
 	s.next = c.Add(r, c.IntC(1))
+	e.freshRefs[r] = true
 	return r
+}
+
+// isFreshTerm: t is (an element or sub-object of) a reference allocated by the
+// function being verified -- known syntactically, no obligation needed.
+func (e *Engine) isFreshTerm(t *Term) bool {
+	for t != nil {
+		if e.freshRefs[t] {
+			return true
+		}
+		if t.Op == "app" && strings.HasPrefix(t.Name, "sub:") {
+			t = t.Args[0]
+			continue
+		}
+		return false
+	}
+	return false
 }
 
 // rootOf is the allocation unit an address belongs to: elements of arrays and
@@ -792,9 +837,9 @@ func (e *Engine) mergeVal(g *Term, a, b Value) Value {
 						}
 						return r
 					}
-				case PElem:
-					if types.Identical(x.T, y.T) {
-						return PtrV{Kind: PElem, Arr: c.Ite(g, x.Arr, y.Arr), Idx: c.Ite(g, x.Idx, y.Idx), T: x.T}
+				case PElem, PElemObj:
+					if types.Identical(x.T, y.T) && x.Key == y.Key {
+						return PtrV{Kind: x.Kind, Arr: c.Ite(g, x.Arr, y.Arr), Idx: c.Ite(g, x.Idx, y.Idx), T: x.T, Key: x.Key}
 					}
 				case PArr:
 					return PtrV{Kind: PArr, Arr: c.Ite(g, x.Arr, y.Arr), T: x.T}
@@ -952,10 +997,10 @@ func (e *Engine) strLit(s string) *Term {
 	e.strLits[s] = t
 	e.strLitVals[t] = s
 	// facts: length, id, characters for short literals
-	fs := []*Term{c.Eq(c.App("str.len", Int, t), c.IntC(int64(len(s)))), c.Eq(c.App("str.id", Int, t), c.IntC(int64(id)))}
+	fs := []*Term{c.Eq(c.App("s.len", Int, t), c.IntC(int64(len(s)))), c.Eq(c.App("s.id", Int, t), c.IntC(int64(id)))}
 	if len(s) <= 32 {
 		for i := 0; i < len(s); i++ {
-			fs = append(fs, c.Eq(c.App("str.at", BV8, t, c.IntC(int64(i))), c.BVC(int64(s[i]))))
+			fs = append(fs, c.Eq(c.App("s.at", BV8, t, c.IntC(int64(i))), c.BVC(int64(s[i]))))
 		}
 	}
 	t.AddFact(c.And(fs...))
@@ -966,7 +1011,7 @@ func (e *Engine) strLen(s *Term) *Term {
 	if v, ok := e.strLitVals[s]; ok {
 		return e.C.IntC(int64(len(v)))
 	}
-	l := e.C.App("str.len", Int, s)
+	l := e.C.App("s.len", Int, s)
 	l.AddFact(e.C.Le(e.C.IntC(0), l))
 	return l
 }
@@ -974,4 +1019,27 @@ func (e *Engine) strLen(s *Term) *Term {
 func isErrorType(t types.Type) bool {
 	n, ok := t.(*types.Named)
 	return ok && n.Obj().Pkg() == nil && n.Obj().Name() == "error"
+}
+
+// ---- write tracking for frame obligations ----
+
+type wkind int
+
+const (
+	wRef wkind = iota // first-level index ref
+	wRow              // elements [lo, lo+n) of backing array arr
+	wAll              // anything
+)
+
+type wtarget struct {
+	kind    wkind
+	ref     *Term
+	arr     *Term
+	lo, n   *Term
+}
+
+func (e *Engine) noteWrite(s *State, key string, w wtarget) {
+	if e.cur != nil && e.dry == 0 {
+		e.cur.noteWrite(s, key, w)
+	}
 }
